@@ -189,6 +189,59 @@ CLAIMED["C10"] = (
     "Lean 4 proof (non-interference and once-only by induction over histories) with translated constants and twin-run correspondence",
     "DESIGN.md §5 C10, §10.2")
 
+CLAIMED["C03"] = (
+    "Lean 4 theorems over three separately transcribed functions on a value lattice (bool/int/float subclasses, numpy scalars, "
+    "objects with __index__/__float__/__complex__ returning or raising, NaN/inf/-0.0, huge ints, None, containers, classes, "
+    "callables, modules): fastAlone (one arm per validate_trait_* C function), fastInCompound (one arm per case of "
+    "validate_trait_complex — the duplication in C is reproduced on purpose) and pyValidate (one arm per Python validate method), "
+    "plus descOf (the fast_validate tuples incl. TraitCompound.set_validate's flattening): the two C copies of every case agree "
+    "for all descriptors and values, a compound is the first accepting alternative in the evaluation order set_validate builds, "
+    "tuples are element-wise with input re-use iff unchanged, and fast = Python for every non-compound trait type and for all "
+    "clean compound trees of any nesting (C03_agree_partial / _compound_partial). The full statement is kept as a def and refuted "
+    "by five proved witnesses, each a known finding (F11 tuple subclass exact type, F40 Callable(allow_none=False), F41/F42 "
+    "coerce, F47 Instance(object) and None, F43 foreign exceptions in compound alternatives). validate_handlers[], the case labels "
+    "of validate_trait_complex and _trait_set_validate, the ValidateTrait enum and the in_float_range comparisons are regenerated "
+    "from the source on every run and proved equal to the model's tables. Correspondence: both real paths (ctrait.validate and "
+    "handler.validate) vs both model functions on the full single-trait grid x value lattice and random compounds.",
+    "Trusted: Lean kernel, standard axioms; translator validate_tables; Py.Val is a hand model of isinstance/==/hash/operator.index/"
+    "PyFloat_AsDouble/int->double rounding, checked against CPython and numpy on every run; calling a type object, re.match, "
+    "np.asarray, np.can_cast, adapt and user validator functions are parameters fed from the real calls (EnvOK hypotheses); harness.",
+    "Lean 4 proof (agreement of three transcriptions, by cases and structural induction on compound nesting) with translated tables and correspondence",
+    "DESIGN.md §5 C03, §10.2")
+CLAIMED["C01"] = (
+    "Lean 4 theorems: inDomain (the declared criteria written from the documentation, independently of both validators) and Conv "
+    "(documented conversion) hold of whatever validate accepts — for Int…CBool, float and int Range with NaN and exclusive bounds, "
+    "Enum, Map, Tuple, Instance in all adapt modes, Type, This, Callable, Module, String (all variants), PrefixList, PrefixMap, "
+    "Array and the legacy handlers, at any nesting of Tuple/Either/Union/TraitCompound (C01_sound_partial; the full statement is "
+    "refuted by the coerce witness, F42); a TraitError leaves every attribute untouched (C01_reject, _iff); any other exception "
+    "leaves the state untouched and has one of the listed sources (the value's own conversion protocol, overflow, …; F45 BaseEnum "
+    "witness); over every history of assignments every readable value of a declared attribute is in its domain (C01_readable) and "
+    "shadow = map[value] (C01_mapped). Correspondence: real attribute assignment, constructor keyword and trait_set on a "
+    "three-attribute object vs the model; oracle = an independent Python reference predicate per trait type.",
+    "Trusted: as C03; regex matching and numpy casting are parameters fed from the real calls; defaults are C10's subject; the "
+    "TraitError message naming the attribute is checked by the oracle only; harness.",
+    "Lean 4 proof (soundness w.r.t. an independent domain predicate; invariant over assignment histories) with correspondence",
+    "DESIGN.md §5 C01, §10.2")
+
+CLAIMED["C15"] = (
+    "Lean 4 theorems over a model of the observe mini-language (lexer incl. the contextual items-after-+ rule, an AST in which '*' "
+    "followed by a connector is unrepresentable, a total recursive-descent parser with proved fuel sufficiency, render with "
+    "arbitrary whitespace and redundant brackets, the compile functions of parsing.py/expression.py incl. the branch dedupe of fix "
+    "4a0994c, graph equality, and an independent denotation written from the documentation): the grammar data regenerated from "
+    "_dsl_grammar.lark on every run equals the model's (proof obligation), a token string is derivable iff it is the tokens of a "
+    "tree, the parser accepts exactly the grammar language, every rendering of every tree parses back (unbounded depth/length), "
+    "everything accepted is a rendering ('*' only terminal), compiled paths = documented denotation, the notify law, the four "
+    "alternatives of items, spelling invariance (brackets, associativity, whitespace) so that removal by text matches "
+    "registration by text, compilation is total (C15_accepts_all at full strength after the fix). F17 (the manual's '[a.*, b.c]' is "
+    "rejected by the grammar) is a known finding. Correspondence: real parse/compile_str vs the model on ALL strings of up to 4 "
+    "(quick) / 6 (thorough, 2.06 million) symbols of an 11-symbol alphabet plus random decorated derivations and near-misses; the "
+    "oracle also registers and removes by equivalent spellings on real objects.",
+    "Trusted: Lean kernel, standard axioms; translator grammar; the generated LALR tables are not modelled (tied by the exhaustive "
+    "short-string correspondence); Python's \\w on non-ASCII is a parameter table; Lark's WS is taken from the generated parser's "
+    "terminal table; commutativity of ',' is checked by correspondence/oracle only; harness.",
+    "Lean 4 proof (parser = grammar both directions; compile = denotation; spelling invariance) with translated grammar and exhaustive short-string correspondence",
+    "DESIGN.md §5 C15, §10.2")
+
 NOT_YET = "check not built yet in this round (planned in DESIGN.md §9); not claimed until it exists"
 
 
